@@ -18,3 +18,9 @@ Definition has (name : string) : bool := existsb (fun e => String.eqb (fst e) na
 Lemma range_table_ok :
   forallb entry_ok range_calls = true /\ has "jsa_range" = true /\ has "jsi_range" = true /\ has "jsi_singles_range" = true.
 Proof. vm_compute. repeat split. Qed.
+
+(* all eight evaluators, by name, and nothing else *)
+Lemma range_table_names :
+  map fst range_calls = ["jsa_range"; "jsa_normalized_range"; "jsi_range"; "jsi_normalized_range"; "jsi_singles_range"; "jsi_singles_idler_range";
+                         "jsi_singles_normalized_range"; "jsi_singles_idler_normalized_range"].
+Proof. reflexivity. Qed.
